@@ -16,7 +16,7 @@ class Unsupported(Exception):
     pass
 
 
-def strip_comments(text):
+def strip_comments(text, keep_attrs=False):
     """Remove // and /* */ comments (not inside string literals) and attribute lines; keep line structure."""
     out, i, n = [], 0, len(text)
     while i < n:
@@ -41,6 +41,8 @@ def strip_comments(text):
             out.append(c)
             i += 1
     s = ''.join(out)
+    if keep_attrs:
+        return s
     s = re.sub(r'^\s*#!?\[[^\]\n]*\]\s*$', '', s, flags=re.M)      # attribute lines
     s = re.sub(r'#\[(?:inline|cold|allow|doc|cfg_attr)[^\]\n]*\]', '', s)  # inline attributes
     return s
